@@ -245,3 +245,7 @@ MC("c06-c-quadrant-corners", "C06", ("__pyx_f_6toasty_10_libtoasty__subsample(__
 # ---- regression of the shutdown-race repair (flag looked at after the empty poll again)
 M("c03-flag-after-poll", "C03", ("pyramid.py", "            args = ready_queue.get(True, timeout=1)\n        except Empty:\n            if done:", "            args = ready_queue.get(True, timeout=1)\n        except Empty:\n            if done_event.is_set():"))
 M("c03-mtan-flag-after-poll", "C03", ("multi_tan.py", "        except Empty:\n            if done:", "        except Empty:\n            if done_event.is_set():"))
+
+# ---- regression of the chunk-boundary repair (F12): per-chunk rounding again
+M("c07-chunk-local-rounding", "C07", ("samplers.py", "            ix = np.floor(lon / sx).astype(int)\n            np.clip(ix, 0, gnx - 1, out=ix)\n            ix -= cx\n",
+  "            _l = sx * cx - np.pi\n            _dx = nx / ((sx * (cx + nx) - np.pi) - _l)\n            ix = np.round((lon - np.pi - (_l + 0.5 / _dx)) * _dx).astype(int)\n"))
